@@ -131,6 +131,16 @@ func SelfCheck(dir string) (report map[string]int, failures []string, err error)
 					fail(ln, "state does not decode: %v", err)
 				} else if !bytes.Equal(EncodeState(st), raw) {
 					fail(ln, "state does not round-trip")
+				} else {
+					for _, t := range fs[4:] {
+						if strings.HasPrefix(t, "root=") {
+							r := StateRoot(st)
+							if t[5:] != hex.EncodeToString(r[:]) {
+								fail(ln, "state root tag differs from the root of the decoded bytes")
+							}
+							report["state_root_tags"]++
+						}
+					}
 				}
 			} else {
 				blocks[fs[1]] = blobRef{fk, fs[3]}
@@ -241,6 +251,14 @@ func SelfCheck(dir string) (report map[string]int, failures []string, err error)
 				}
 				if (fs[5] == "1") != valid {
 					fail(ln, "is_valid differs")
+				}
+				for _, t := range fs[6:] {
+					if strings.HasPrefix(t, "root=") {
+						r := StateRoot(st)
+						if t[5:] != hex.EncodeToString(r[:]) {
+							fail(ln, "genesis root tag differs")
+						}
+					}
 				}
 			}
 		case "cancel":
